@@ -11,12 +11,17 @@ package merkledag
 //@ ghost namedBytes(n *ProtoNode, name string) int
 //@ spec linkEntryBytes(nameLen int, c cid.Cid, tsize uint64) int
 
+// (the link-size clauses are `trusted`: clients rely on them, the bodies are checked for C11 only)
 //@ func (*ProtoNode).AddRawLink
-//@   assumed
-//@   modifies fields(n), linkBytes(n), namedBytes(n, name)
-//@   ensures[added] err == nil ==> linkBytes(n) == old(linkBytes(n)) + linkEntryBytes(len(name), l.Cid, l.Size)
-//@   ensures[named] err == nil ==> namedBytes(n, name) == old(namedBytes(n, name)) + linkEntryBytes(len(name), l.Cid, l.Size)
-//@   ensures[failed] err != nil ==> linkBytes(n) == old(linkBytes(n)) && namedBytes(n, name) == old(namedBytes(n, name))
+//@   prop C11
+//@   arith int
+//@   requires n != nil && l != nil
+//@   modifies fields(n), elems(n.links), linkBytes(n), namedBytes(n, name)
+//@   trusted[added] err == nil ==> linkBytes(n) == old(linkBytes(n)) + linkEntryBytes(len(name), l.Cid, l.Size)
+//@   trusted[named] err == nil ==> namedBytes(n, name) == old(namedBytes(n, name)) + linkEntryBytes(len(name), l.Cid, l.Size)
+//@   trusted[failed] err != nil ==> linkBytes(n) == old(linkBytes(n)) && namedBytes(n, name) == old(namedBytes(n, name))
+//@   ensures[encoding_dropped] err == nil ==> n.encoded == nil && n.linksDirty
+//@   ensures[failed_changes_nothing] err != nil ==> n.links == old(n.links) && n.encoded == old(n.encoded) && n.linksDirty == old(n.linksDirty)
 
 //@ func (*ProtoNode).GetNodeLink
 //@   assumed
@@ -25,15 +30,85 @@ package merkledag
 //@   ensures[notfound] err != nil ==> err == ErrLinkNotFound && namedBytes(n, name) == 0 && result0 == nil
 
 //@ func (*ProtoNode).RemoveNodeLink
-//@   assumed
-//@   modifies fields(n), linkBytes(n), namedBytes(n, name)
-//@   ensures[removed] err == nil ==> linkBytes(n) == old(linkBytes(n)) - old(namedBytes(n, name)) && namedBytes(n, name) == 0
-//@   ensures[present] old(namedBytes(n, name)) > 0 ==> err == nil
-//@   ensures[failed] err != nil ==> linkBytes(n) == old(linkBytes(n)) && namedBytes(n, name) == old(namedBytes(n, name))
+//@   prop C11
+//@   arith int-assumed
+//@   requires n != nil
+//@   modifies fields(n), elems(n.links), linkBytes(n), namedBytes(n, name)
+//@   trusted[removed] err == nil ==> linkBytes(n) == old(linkBytes(n)) - old(namedBytes(n, name)) && namedBytes(n, name) == 0
+//@   trusted[present] old(namedBytes(n, name)) > 0 ==> err == nil
+//@   trusted[failed] err != nil ==> linkBytes(n) == old(linkBytes(n)) && namedBytes(n, name) == old(namedBytes(n, name))
+//@   ensures[encoding_dropped] err == nil ==> n.encoded == nil && n.linksDirty
+//@   ensures[failed_keeps_caches] err != nil ==> n.encoded == old(n.encoded) && n.linksDirty == old(n.linksDirty) && len(n.links) == old(len(n.links))
 
-//@ func (*ProtoNode).Links
+//@ func (*ProtoNode).sortLinks
 //@   assumed
+//@   modifies elems(n.links)
+//@ func (*ProtoNode).Links
+//@   prop C11
+//@   arith int
+//@   requires n != nil
+//@   modifies fields(n), elems(n.links)
+//@   ensures[sorting_drops_the_encoding] old(n.linksDirty) ==> n.encoded == nil && !n.linksDirty
+//@   ensures[clean_node_untouched] !old(n.linksDirty) ==> n.encoded == old(n.encoded) && !n.linksDirty
+//@   ensures[a_copy] len(result) == len(n.links)
+
+// ---- C11: the cached encoding and the cached CID never outlive what they were computed from ----
+// invariant kept by every mutator:
+//   n.encoded != nil  ==>  n.encoded is the encoding of the current data and (sorted) links
+//   n.encoded != nil && n.cached defined  ==>  n.cached is the current builder's CID of n.encoded
+// i.e. whoever writes data or links drops n.encoded, whoever changes the builder drops n.cached
+// (EncodeProtobuf recomputes n.cached whenever it recomputes n.encoded).
+//@ func ext (github.com/ipfs/go-cid.Cid).Defined
+//@   ensures c == cid.Undef ==> !result
+//@ func (*ProtoNode).SetData
+//@   prop C11
+//@   arith int
+//@   requires n != nil
+//@   modifies n.encoded, n.cached, n.data
+//@   ensures[caches_dropped] n.encoded == nil && n.cached == cid.Undef && n.data == d
+//@ func checkLink
+//@   assumed
+//@ func (*ProtoNode).SetLinks
+//@   prop C11
+//@   arith int-assumed
+//@   requires n != nil
 //@   modifies fields(n)
+//@   ensures[encoding_dropped] err == nil ==> n.encoded == nil && n.linksDirty
+//@   ensures[failed_changes_nothing] err != nil ==> n.links == old(n.links) && n.encoded == old(n.encoded) && n.linksDirty == old(n.linksDirty)
+//@ func checkHasher
+//@   assumed
+//@ func (*ProtoNode).SetCidBuilder
+//@   prop C11
+//@   arith int
+//@   requires n != nil
+//@   modifies all
+//@   ensures[cid_cache_dropped] err == nil ==> n.cached == cid.Undef || n.builder == old(n.builder)
+//@   ensures[failed_changes_nothing] err != nil ==> n.builder == old(n.builder) && n.cached == old(n.cached)
+//@ func (*ProtoNode).marshalImmutable
+//@   assumed
+//@   modifies fields(n), elems(n.links)
+//@   ensures err == nil ==> result0 != nil
+//@   ensures !n.linksDirty && n.data == old(n.data) && n.builder == old(n.builder) && n.cached == old(n.cached)
+//@ func (*ProtoNode).CidBuilder
+//@   inline
+//@ func iface github.com/ipfs/go-cid.Builder.Sum
+//@ func (*ProtoNode).EncodeProtobuf
+//@   prop C11
+//@   arith int
+//@   requires n != nil
+//@   modifies all
+//@   ensures[reencodes_when_stale] err == nil && (old(n.encoded) == nil || old(n.linksDirty) || force) ==> called("call:ProtoNode.marshalImmutable#0") && n.encoded == res("call:ProtoNode.marshalImmutable#0", 0)
+//@   ensures[keeps_a_valid_encoding] err == nil && !(old(n.encoded) == nil || old(n.linksDirty) || force) ==> n.encoded == old(n.encoded)
+//@   ensures[new_encoding_new_cid] err == nil && n.encoded != old(n.encoded) ==> called("invoke:Builder.Sum#0") && n.cached == res("invoke:Builder.Sum#0", 0)
+//@   ensures[cid_of_the_encoding] err == nil && called("invoke:Builder.Sum#0") ==> n.cached == res("invoke:Builder.Sum#0", 0)
+//@   site[hashes_the_cached_encoding] invoke:Builder.Sum : arg1 == n.encoded.encoded
+//@   ensures[returns_the_encoding] err == nil ==> n.encoded != nil && result0 == n.encoded.encoded
+//@ func (*ProtoNode).UnmarshalJSON
+//@   prop C11
+//@   arith int-assumed
+//@   requires n != nil
+//@   modifies all
+//@   ensures[encoding_dropped] n.data != old(n.data) || n.links != old(n.links) ==> n.encoded == nil
 
 // ---- C12: DAG walks report the right CIDs ------------------------------------------------
 // (Cid).Hash is a deterministic function of the CID
